@@ -68,11 +68,55 @@ def min_distortion(DX, DY):
     return best
 
 
-def exact_double(DX, DY):
-    """2 * mGH as an integer."""
+_bb_cache = {}
+
+
+def min_distortion_bb(DX, DY):
+    """Same value as min_distortion, by exhaustive depth-first search over partial maps with the
+    only sound pruning there is: the distortion of a partial map never decreases when it is extended,
+    so a branch whose distortion already reaches the best complete map found cannot improve on it.
+    (Validated against the plain enumeration on every pair of graphs <= 4 vertices in the self-test.)"""
+    key = (DX.tobytes(), DX.shape, DY.tobytes(), DY.shape)
+    if key in _bb_cache:
+        return _bb_cache[key]
+    n, m = len(DX), len(DY)
+    DX = DX.astype(np.int64)
+    DY = DY.astype(np.int64)
+    # map the most "spread" points first: rows with the largest eccentricity
+    order = sorted(range(n), key=lambda x: -int(DX[x].max()))
+    best = [int(max(DX.max(), DY.max())) + 1]
+
+    def rec(k, images, cur):
+        if cur >= best[0]:
+            return
+        if k == n:
+            best[0] = cur
+            return
+        x = order[k]
+        if k == 0:
+            cand = np.zeros(m, dtype=np.int64)
+        else:
+            xs = order[:k]
+            cand = np.abs(DX[x, xs][None, :] - DY[:, images]).max(axis=1)
+        for y in np.argsort(cand, kind="stable"):
+            c = max(cur, int(cand[y]))
+            if c >= best[0]:
+                break
+            rec(k + 1, images + [int(y)], c)
+
+    rec(0, [], 0)
+    _bb_cache[key] = best[0]
+    return best[0]
+
+
+def exact_double(DX, DY, bb=None):
+    """2 * mGH as an integer (plain enumeration for small spaces, branch-and-bound search beyond)."""
     DX = np.asarray(DX, dtype=np.int64)
     DY = np.asarray(DY, dtype=np.int64)
-    return max(min_distortion(DX, DY), min_distortion(DY, DX))
+    if bb is None:
+        bb = max(len(DX), len(DY)) >= 6
+    f = min_distortion_bb if bb else min_distortion
+    return max(f(DX, DY), f(DY, DX))
 
 
 def labelled_graphs(n, connected_only=False):
